@@ -49,6 +49,15 @@ def run(ctx):
     ctx.run_mvh(["gate", "-vectors", ctx.path("gatevec.ndjson"), "-out", trg, "-seed", ctx.seed, "-tier", ctx.tier])
     recs = _stream.validate_streams(ctx, trg, defs=defs, clause_filter=lambda c: c in MINE)
     delivered = 0
+    # the gate of a second dialect in the same process whose messages are namesakes of shipped ones
+    rc, out = ctx.tlc("Gen_Gate", env={"DEFS": defs, "DIALECT": defs + ".inhouse.json", "VECMOD": 1, "VECOFF": 0},
+                      tag="gen:gate_inhouse", timeout=600)
+    nvi = _stream.parse_vec_lines(out, ctx.path("gatevec_inhouse.ndjson"))
+    if nvi == 0:
+        raise vf.Inconclusive("Gen_Gate (in-house dialect) produced no vectors:\n" + vf.tail(out, 30))
+    trgi = ctx.path("gate_inhouse.ndjson")
+    ctx.run_mvh(["gate", "-aux", "inhouse", "-vectors", ctx.path("gatevec_inhouse.ndjson"), "-out", trgi, "-seed", ctx.seed, "-tier", ctx.tier])
+    recs += _stream.validate_streams(ctx, trgi, defs=defs, clause_filter=lambda c: c in MINE)
     conc = [r for r in recs if r["e"] == "CONC"]
     recs = [r for r in recs if r["e"] == "STREAM"]
     ctx.cov["concurrent_readers_sharing_a_dialect"] = [{"passes": r["passes"], "delivered": r["delivered"], "perr": r["perr"]} for r in conc]
